@@ -757,6 +757,11 @@ class SigmaRegularExpression(SigmaType):
         SigmaRegularExpressionFlag.DOTALL: "s",
     }
 
+    def __repr__(self) -> str:
+        # the flag set is rendered in a fixed order: this text ends up in error messages
+        flags = ", ".join(repr(flag) for flag in sorted(self.flags, key=lambda flag: flag.value))
+        return f"SigmaRegularExpression(regexp={self.regexp!r}, flags={'{' + flags + '}' if flags else 'set()'})"
+
     def __post_init__(
         self,
         regexp_init: str | SigmaString,
